@@ -16,6 +16,8 @@ type c13Variant struct {
 	name  string
 	prog  *gen.Program
 	equiv int // index of the variant whose results must be identical (-1: none)
+	src    string // rendering override (definitions interleaved with commands)
+	concat []int  // results must equal the concatenation of these variants' results
 }
 
 func cmdFind(body ...gen.Node) gen.Command {
@@ -76,7 +78,7 @@ func c13Variants(rng *gen.Rng, i int) ([]c13Variant, [][]byte) {
 	}
 	var vs []c13Variant
 	add := func(name string, equiv int, globals []gen.Global, cmds ...gen.Command) int {
-		vs = append(vs, c13Variant{name, &gen.Program{Globals: globals, Commands: cmds}, equiv})
+		vs = append(vs, c13Variant{name: name, prog: &gen.Program{Globals: globals, Commands: cmds}, equiv: equiv})
 		return len(vs) - 1
 	}
 	inl := add("in-place", -1, nil, cmdFind(wrapPS(grp)...))
@@ -152,9 +154,23 @@ func c13Variants(rng *gen.Rng, i int) ([]c13Variant, [][]byte) {
 	}
 	inAlt := add("in-place-in-alternation", -1, nil, cmdFind(wrapPS(gen.Or{Alts: []gen.Node{gen.Lit{S: "x"}, grp}})...))
 	add("global-pattern-in-alternation", inAlt, []gen.Global{g}, cmdFind(wrapPS(gen.Or{Alts: []gen.Node{gen.Lit{S: "x"}, gen.GlobalRef{Name: "gx"}}})...))
-	// three commands sharing one definition == concatenation of the commands taken alone
 	c1 := cmdFind(wrapPS(gen.GlobalRef{Name: "gx"})...)
 	c2 := cmdFind(gen.GlobalRef{Name: "gx"})
+	// the name defined AGAIN between commands: each command runs with the definition in force where it stands
+	{
+		B2 := []gen.Node{atomPG.Node(0)}
+		if rng.Bool() {
+			B2 = append(B2, gen.Or{Alts: []gen.Node{gen.Lit{S: "b"}, gen.Lit{S: "x"}}})
+		}
+		g2 := gen.Global{Name: "gx", Body: B2}
+		r1 := add("redefinition:first-definition-command-1-alone", -1, []gen.Global{g}, c1)
+		r2 := add("redefinition:second-definition-command-1-alone", -1, []gen.Global{g2}, c1)
+		r3 := add("redefinition:second-definition-command-2-alone", -1, []gen.Global{g2}, c2)
+		k := add("redefinition-between-commands", -1, []gen.Global{g}, c1, c1, c2)
+		vs[k].src = gen.RenderGlobal(g) + "\n" + gen.RenderCommand(c1) + "\n" + gen.RenderGlobal(g2) + "\n" + gen.RenderCommand(c1) + "\n" + gen.RenderCommand(c2)
+		vs[k].concat = []int{r1, r2, r3}
+	}
+	// three commands sharing one definition == concatenation of the commands taken alone
 	c3 := cmdFind(gen.Or{Alts: []gen.Node{gen.Lit{S: "b"}, gen.GlobalRef{Name: "gx"}}}, gen.Loop{Min: 0, Max: 1, Form: "maybe", Body: gen.GlobalRef{Name: "gx"}})
 	if !subDup {
 		c3 = cmdFind(gen.Or{Alts: []gen.Node{gen.Lit{S: "b"}, gen.GlobalRef{Name: "gx"}}})
@@ -181,7 +197,7 @@ func C13(r *drv.Run) {
 	if !quick(r) {
 		nbody, nhist = 20000, 2500
 	}
-	r.Rule = "(1) capture-free bodies B (with or, in, not in, loops, nested and recursive subroutines) in contexts prefix/suffix, inside a loop, inside an alternation: B in place == {B}=s (+0..2 calls) == set g to pattern B referenced 1..3 times, also referenced before AND inside a counted loop (exactly 2 / at least 2 / between 3 and 4), all also judged by the reference matcher; (2) a three-command source sharing one definition == concatenation of its commands compiled alone; (3) recorded sequential histories of Compile/Run calls in random order over a pool of sources (including sources whose compilation fails in the parser, the regex sub-parser, the generator and the type checker) and texts, checked offline against the pure-function model: each call's result digest equals the digest the same call produced alone in a fresh worker process; (4) canonical bytecode digest (loop ids normalised) unchanged by runs and equal across recompilations. Non-trivial = variant pair with >= 1 match compared / history call whose isolated result has >= 1 match; distinct by (variant source, text) and (history, call index)."
+	r.Rule = "(1) capture-free bodies B (with or, in, not in, loops, nested and recursive subroutines) in contexts prefix/suffix, inside a loop, inside an alternation: B in place == {B}=s (+0..2 calls) == set g to pattern B referenced 1..3 times, also referenced before AND inside a counted loop (exactly 2 / at least 2 / between 3 and 4), all also judged by the reference matcher; (2) a three-command source sharing one definition == concatenation of its commands compiled alone; a source that defines the name AGAIN with another body between its commands == concatenation of each command compiled alone with the definition in force where it stands; (3) recorded sequential histories of Compile/Run calls in random order over a pool of sources (including sources whose compilation fails in the parser, the regex sub-parser, the generator and the type checker) and texts, checked offline against the pure-function model: each call's result digest equals the digest the same call produced alone in a fresh worker process; (4) canonical bytecode digest (loop ids normalised) unchanged by runs and equal across recompilations. Non-trivial = variant pair with >= 1 match compared / history call whose isolated result has >= 1 match; distinct by (variant source, text) and (history, call index)."
 	r.Assumptions = []string{
 		"bodies are capture-free, as the property says",
 		"a body that itself declares subroutines is not duplicated textually (two declarations of one name are rejected by design)",
@@ -192,6 +208,9 @@ func C13(r *drv.Run) {
 		srcs := make([][]byte, len(vs))
 		for k, v := range vs {
 			srcs[k] = []byte(gen.RenderProgram(v.prog))
+			if v.src != "" {
+				srcs[k] = []byte(v.src)
+			}
 		}
 		c := wire.Case{Op: "astcmp", Srcs: srcs, Texts: texts, StepBudget: 300000, WantBC: true}
 		return &drv.Item{Case: c, Check: func(res *wire.Result) { c13CheckVariants(r, vs, srcs, texts, &c, res, i) }}
@@ -199,7 +218,7 @@ func C13(r *drv.Run) {
 	c13Histories(r, nhist)
 	if r.NViolations() == 0 {
 		expensiveFloor(r)
-		for _, k := range []string{"pairs_global-pattern", "pairs_inline-subroutine", "pairs_global-pattern-thrice", "pairs_global-pattern-in-loop", "pairs_global-pattern-before-and-inside-counted-loop", "pairs_inline-subroutine-before-and-inside-counted-loop", "concat_checked", "history_calls_checked", "reloc_StartSubroutine", "reloc_CallSubroutine", "reloc_Branch"} {
+		for _, k := range []string{"pairs_global-pattern", "pairs_inline-subroutine", "pairs_global-pattern-thrice", "pairs_global-pattern-in-loop", "pairs_global-pattern-before-and-inside-counted-loop", "pairs_inline-subroutine-before-and-inside-counted-loop", "concat_checked", "concat_redefinition-between-commands", "history_calls_checked", "reloc_StartSubroutine", "reloc_CallSubroutine", "reloc_Branch"} {
 			if r.Counter(k) == 0 {
 				r.Inconclusive("coverage floor: " + k + " = 0")
 			}
@@ -283,6 +302,21 @@ func c13CheckVariants(r *drv.Run, vs []c13Variant, srcs [][]byte, texts [][]byte
 				}
 				r.Count("pairs_"+v.name, 1)
 				if len(want.Matches) > 0 {
+					r.Nontrivial(string(srcs[k]) + "\x00" + string(text))
+				}
+			}
+			if v.concat != nil {
+				var cat []wire.Match
+				for _, d := range v.concat {
+					cat = append(cat, run(d, ti).Matches...)
+				}
+				if matchesJSON(got.Matches) != matchesJSON(cat) {
+					r.Violate(&drv.Violation{Sig: "multi-command-not-concatenation:" + v.name, Src: string(srcs[k]), Text: string(text), Case: c,
+						Detail: map[string]any{"expected": fmtGotN(cat), "observed": fmtGotN(got.Matches)}})
+					continue
+				}
+				r.Count("concat_"+v.name, 1)
+				if len(cat) > 0 {
 					r.Nontrivial(string(srcs[k]) + "\x00" + string(text))
 				}
 			}
